@@ -52,6 +52,10 @@ def make_case(prop, seed, i, tier):
     if i % 2 == 0:
         spec = G.gen_random(rng, G.profile(facility_rich=rng.random() < 0.3, p_auto=0.3))
         spec["sim"]["absence"] = absence_list(rng)
+        if rng.random() < 0.05:
+            spec = G.gen_scale(rng, rng.choice(["long", "long", "many_resources"]))    # long runs with late / long absence blocks, big teams
+            if not spec["sim"]["absence"]:
+                spec["sim"]["absence"] = sorted(rng.sample(range(0, 40), 5))
         spec["sim"]["auto_flag"] = rng.random() < 0.5
         if i % 8 == 4:
             # the same in-step clauses during a BACKWARD run (due-time padding tasks are automatic tasks);
@@ -65,8 +69,21 @@ def make_case(prop, seed, i, tier):
         return dict(prop=prop, i=i, kind="in-step", spec=spec)
     # equivalence class: no individual absences, no component-bound automatic task,
     # (flag off or no automatic task)
-    spec = G.gen_random(rng, G.profile(facility_rich=rng.random() < 0.3, res_absence=False, p_auto=0.25,
-                                       ensure_worker=0.95, max_time=70))
+    long_block = None
+    if rng.random() < 0.08:
+        # a long run with a block of a hundred and more consecutive absence steps, late in the run
+        spec = G.gen_scale(rng, "long")
+        for tm in spec["teams"]:
+            for w in tm["workers"]:
+                w["absence"] = []
+        for wp in spec["wps"]:
+            for f in wp["facilities"]:
+                f["absence"] = []
+        a0 = rng.choice([3, 20, 60, 130])
+        long_block = list(range(a0, a0 + rng.choice([100, 101, 120, 140])))
+    else:
+        spec = G.gen_random(rng, G.profile(facility_rich=rng.random() < 0.3, res_absence=False, p_auto=0.25,
+                                           ensure_worker=0.95, max_time=70))
     for t in spec["tasks"]:
         if t["auto"] and t["component"] is not None:
             t["component"] = None
@@ -76,7 +93,7 @@ def make_case(prop, seed, i, tier):
             t["auto"] = False
     spec["sim"]["auto_flag"] = flag
     spec["sim"]["absence"] = []
-    case = dict(prop=prop, i=i, kind="equivalence", spec=spec, absence=absence_list(rng))
+    case = dict(prop=prop, i=i, kind="equivalence", spec=spec, absence=absence_list(rng) if long_block is None else long_block)
     r = rng.random()
     if r < 0.35:
         # the run with absence is paused and resumed with the same list (through a JSON file in a third
